@@ -25,6 +25,8 @@ from gstools.tools.geometric import great_circle_to_chordal
 from sim.core import Violation, Inapplicable, HarnessError, close, maxdiff, jdump
 from . import common as cm
 
+_SCIPY_CURVE_FIT = scipy.optimize.curve_fit
+
 NAME = "fit"
 PROPERTY = "C10"
 TIERS = {"quick": (8000, 90.0), "thorough": (250000, 1800.0)}
@@ -178,8 +180,8 @@ class Party:
             if x.shape != self.x.shape or not np.array_equal(x, self.x):
                 return f(x, *p)
             return self.evaluate(p)
-        popt, pcov = scipy.optimize.curve_fit(f=wrapped, xdata=xdata, ydata=ydata, p0=p0,
-                                              bounds=bounds, **kw)
+        popt, pcov = _SCIPY_CURVE_FIT(f=wrapped, xdata=xdata, ydata=ydata, p0=p0,
+                                      bounds=bounds, **kw)
         self.popt = np.asarray(popt, dtype=float)
         return popt, pcov
 
@@ -404,7 +406,7 @@ class Machine:
         self.model = build(start)
         self.shared_cfk = {"ftol": 1e-10}   # one options dict object reused by the caller
         self.rescale_now = None
-        self._orig = gsfit.curve_fit
+        self._orig = _SCIPY_CURVE_FIT
         self.n_fit = 0
 
     # ------------------------------------------------------------------ op generation
@@ -575,7 +577,10 @@ class Machine:
         if exp.n == 0:
             raise Inapplicable("nothing to fit")
         party = Party(self, op_local, pre, exp)
+        # the optimizer seam: the name imported into gstools.covmodel.fit and, should a
+        # refactoring call scipy.optimize.curve_fit through the module, that one as well
         gsfit.curve_fit = party
+        scipy.optimize.curve_fit = party
         try:
             res = m.fit_variogram(self.x.copy(), self.y.copy(), **call)
         except ValueError as e:
@@ -610,6 +615,7 @@ class Machine:
             raise Inapplicable("optimizer did not converge: %s" % str(e)[:60])
         finally:
             gsfit.curve_fit = self._orig
+            scipy.optimize.curve_fit = _SCIPY_CURVE_FIT
         self.n_fit += 1
         self.ctx.observations += 1
         fit_para, pcov, r2 = res
@@ -750,6 +756,7 @@ class Machine:
 
     def close(self):
         gsfit.curve_fit = self._orig
+        scipy.optimize.curve_fit = _SCIPY_CURVE_FIT
 
 
 def signature(rec):
